@@ -132,9 +132,10 @@ def run_matrix_one(sid, worker):
         rc, o = sh(f"git apply --whitespace=nowarn {d}/patch.diff", wt)
         if rc != 0:
             return sid, None, {"error": "patch does not apply: " + o[-200:]}
-        env = dict(ENV, VERIF_REPO=wt, VERIF_OUT=out)
+        os.makedirs(out, exist_ok=True)
+        shutil.copy("/verif/known_findings.jsonl", out)
         for p in claimed():
-            rc, o = sh(f"./check.sh {p} quick", "/verif", env=env, timeout=2400)
+            rc, o = sh(f"{FROZEN} check -p {p} -tier quick -repo {wt} -out {out}", "/verif", timeout=2400)
             if rc != 0:
                 det.append(p)
                 lines = [l.replace(wt + "/", "")[:420] for l in o.splitlines() if "[violated]" in l or "[undecided]" in l or l.startswith("FATAL")]
@@ -145,7 +146,19 @@ def run_matrix_one(sid, worker):
     return sid, det, findings
 
 
+FROZEN = "/tmp/bmcverif_frozen"
+
+
+def freeze():
+    """The matrix runs against one frozen build of the checker, so that work on the sources
+    while it runs cannot change (or break) the binary half-way through."""
+    rc, o = sh(f"go build -o {FROZEN} .", "/verif/checker", env=dict(ENV, CGO_ENABLED="0"))
+    if rc != 0:
+        raise SystemExit("checker does not build: " + o[-500:])
+
+
 def matrix(ids, jobs):
+    freeze()
     ids = ids or sorted(x for x in os.listdir(SEEDED) if os.path.isdir(f"{SEEDED}/{x}"))
     with cf.ThreadPoolExecutor(max_workers=jobs) as ex:
         futs = {}
